@@ -26,10 +26,46 @@ from props import c02
 PID = "C10"
 
 
+def _uvarint(b, i):
+    x = s = 0
+    while i < len(b):
+        c = b[i]
+        i += 1
+        x |= (c & 0x7F) << s
+        if c < 0x80:
+            return x, i
+        s += 7
+    return None, i
+
+
+def wal_stage(b):
+    """E empty | H header only | R complete records | T the last record is cut (independent walk over the v4 framing)"""
+    if len(b) == 0:
+        return "E"
+    if len(b) <= 8:
+        return "H"
+    i = 8
+    compressed = b[4:8] != b"\0\0\0\0"
+    while i < len(b):
+        if b[i:i + 3] != b"\x91\x8d\x4c"[:len(b) - i] or len(b) - i < 4:
+            return "T"
+        j = i + 4
+        ulen, j = _uvarint(b, j)
+        clen, j = _uvarint(b, j) if ulen is not None else (None, j)
+        crc, j = _uvarint(b, j) if clen is not None else (None, j)
+        if crc is None:
+            return "T"
+        n = 0 if b[i + 3] == 1 else (clen if compressed else ulen)
+        if j + n > len(b):
+            return "T"
+        i = j + n
+    return "R"
+
+
 def abstract_class(snap, root):
     """cheap projection of an image: which kinds of directories / files exist in which stage"""
     files, dirs = snap
-    wal = sorted(len(b) for p, b in files.items() if p.startswith(root + "/wal/"))
+    wal = [wal_stage(b) for p, b in sorted(files.items()) if p.startswith(root + "/wal/")]
     tabs = collections.Counter()
     comp = []
     for d in dirs:
@@ -43,7 +79,7 @@ def abstract_class(snap, root):
         elif b.startswith("sstable_"):
             meta = files.get(d + "/meta.pb.bin")
             tabs["complete" if meta else ("partial:%d" % sum(1 for f in ("index.rio", "data.rio", "bloom.bf.gz", "meta.pb.bin") if d + "/" + f in files))] += 1
-    return "wal[%s] tabs[%s] %s" % (",".join("E" if n == 0 else ("H" if n <= 8 else "R") for n in wal),
+    return "wal[%s] tabs[%s] %s" % (",".join(wal),
                                     ",".join("%s" % k for k in sorted(tabs)), ",".join(sorted(comp)))
 
 
@@ -90,6 +126,8 @@ def run(tier):
     per_class = 3 if thorough else 1
     max_reps = 200 if thorough else 36
     sessions = [("%s-%d" % (kinds[i % 4], i), c02.session(rng, kinds[i % 4])) for i in range(nsess)]
+    # a log record above the log's 4 MiB write buffer reaches the file in two write(2) calls: images whose newest log file ends inside a record
+    sessions.append(("hugeput-%d" % nsess, c02.session(rng, "hugeput")))
     recs = common.parallel(lambda s: crashrun.record_session(binary, "C10-" + s[0], s[1], seed=SEED), sessions, nthreads=4)
 
     classes = collections.OrderedDict()
@@ -103,7 +141,7 @@ def run(tier):
         for si, p in lst[:per_class]:
             reps.append((c, si, p))
     # prefer images on which recovery has work to do
-    reps.sort(key=lambda r: -(r[0].count("R") * 3 + r[0].count("flag") * 5 + r[0].count("partial") * 2))
+    reps.sort(key=lambda r: -(r[0].count("R") * 3 + r[0].count("T") * 6 + r[0].count("flag") * 5 + r[0].count("partial") * 2))
     reps = reps[:max_reps]
     log("[C10] %d level-1 images in %d abstract classes; %d representatives" % (sum(len(s["points"]) for s in recs), len(classes), len(reps)))
 
